@@ -61,6 +61,9 @@ pub const KINDS: &[&str] = &[
     "pop",
     "read",
     "stable",
+    "alloc_fail",
+    "register_rem",
+    "badfill",
 ];
 
 struct Obj {
@@ -171,7 +174,7 @@ impl State {
         let iov = &obj.iov;
         let content_tag: (&'static str, &'static str) = if !target {
             ("C20", "C20.sibling_changed")
-        } else if kind == "register" || kind == "backfill" {
+        } else if matches!(kind, "register" | "backfill" | "register_rem" | "badfill") {
             ("C04", "C04.content")
         } else if kind == "clone" || kind == "take" {
             ("C20", "C20.content")
@@ -962,6 +965,64 @@ fn exec_op(
                 }
             }
         }
+        "alloc_fail" => {
+            // Fault: an allocation that cannot succeed (capacity overflow panics,
+            // it does not abort).  The caller contains the panic and carries on.
+            let o = obj!();
+            let want = usize::MAX - (a[1] % 4096) as usize;
+            let r = std::panic::catch_unwind(AssertUnwindSafe(|| o.iov.arena().ensure_capacity(want)));
+            stats.bump(if r.is_err() { "fault.allocation_failure_contained" } else { "fault.allocation_failure_not_raised" });
+        }
+        "register_rem" => {
+            // A placeholder registered when the current arena chunk has room for
+            // only 0..6 more bytes (so the pattern may or may not fit).
+            let o = obj!();
+            if o.dead_holes {
+                stats.bump("noop");
+                return Ok(vec![]);
+            }
+            let rem = o.iov.arena().remaining();
+            let left = (a[1] % 7) as usize;
+            if rem > left && rem - left <= 70_000 {
+                let s = pool_slice(a[3] % 500_000, (rem - left) as u64);
+                o.iov.push_copy(s);
+                o.append(s);
+            }
+            let len = 1 + (a[2] % 4) as usize;
+            let pattern = [0xA5u8; 4];
+            let token = o.iov.register_patch(&pattern[..len]);
+            let id = st.next_hole;
+            st.next_hole += 1;
+            for _ in 0..len {
+                o.cells.push_back(HOLE | id);
+            }
+            o.appended += len as u64;
+            o.tokens.push((id, token));
+            stats.bump("probe.placeholder_at_chunk_end");
+        }
+        "badfill" => {
+            // Caller error: a backfill of the wrong size.  Documented to panic; the
+            // placeholder then stays pending for ever (its token is gone).
+            let o = obj!();
+            if o.tokens.is_empty() {
+                stats.bump("noop");
+                return Ok(vec![]);
+            }
+            let k = (a[1] as usize) % o.tokens.len();
+            if o.tokens[k].1.is_empty() {
+                stats.bump("noop");
+                return Ok(vec![]);
+            }
+            let (_id, token) = o.tokens.remove(k);
+            let len = token.len();
+            let src = vec![0x5Au8; if a[2] % 2 == 0 { len + 1 } else { len - 1 }];
+            let r = std::panic::catch_unwind(AssertUnwindSafe(|| o.iov.backfill_or_panic(token, &src)));
+            if r.is_ok() {
+                return Err(fail("C04", "C04.badfill_accepted", format!("backfill_or_panic accepted {} bytes for a {}-byte placeholder", src.len(), len)));
+            }
+            o.dead_holes = true;
+            stats.bump("fault.wrong_size_backfill_contained");
+        }
         other => panic!("harness: unknown op kind {}", other),
     }
     Ok(targets)
@@ -969,7 +1030,7 @@ fn exec_op(
 
 fn panic_prop(kind: &str) -> &'static str {
     match kind {
-        "register" | "backfill" => "C04",
+        "register" | "backfill" | "register_rem" | "badfill" => "C04",
         "clone" | "take" => "C20",
         "read_n" => "C17",
         k if k.starts_with("held_") => "C05",
@@ -1030,7 +1091,7 @@ impl World for IovecWorld {
         let mut knobs = std::collections::BTreeMap::new();
         // Swarm: which families of operations are enabled in this run.
         let focus = ask.prop;
-        let mut w = [0u64; 33];
+        let mut w = [0u64; 36];
         let on = |rng: &mut Rng, p: u64| -> u64 { rng.chance(p, 100) as u64 };
         let wt = |k: &str| KINDS.iter().position(|x| *x == k).unwrap();
         let producers = 10;
@@ -1066,6 +1127,9 @@ impl World for IovecWorld {
         w[wt("pop")] = 3 * consumers * on(&mut rng, 60);
         w[wt("read")] = 5 * consumers * on(&mut rng, 60);
         w[wt("stable")] = 2;
+        w[wt("alloc_fail")] = on(&mut rng, 10);
+        w[wt("register_rem")] = 2 * holes;
+        w[wt("badfill")] = holes * on(&mut rng, 25);
         if w.iter().sum::<u64>() < 5 {
             w[wt("push_copy")] = 5;
             w[wt("advance")] = 5;
@@ -1121,6 +1185,9 @@ impl World for IovecWorld {
                 "held_clone" | "held_take" | "held_drop" => [rng.below(4), 0, 0, 0],
                 "push_held" => [obj, rng.below(4), rng.below(2), 0],
                 "register" => [obj, rng.range(0, 4), 0, 0],
+                "alloc_fail" => [obj, rng.below(4096), 0, 0],
+                "register_rem" => [obj, rng.below(7), rng.below(4), off],
+                "badfill" => [obj, rng.below(8), rng.below(2), 0],
                 "backfill" => [obj, rng.below(8), rng.next() >> 1, 0],
                 "clear" | "drop" | "flush" | "pop" | "stable" => [obj, 0, 0, 0],
                 "take" | "clone" => [obj, rng.below(3), 0, 0],
@@ -1171,7 +1238,7 @@ impl World for IovecWorld {
                     match op.k {
                         "consume" | "advance" | "pop" | "read" => consumed = true,
                         "push" | "push_borrowed" | "push_copy" | "extend" | "push_held"
-                        | "register" | "sink_copy" | "sink_borrow" | "push_copy_rem" => {
+                        | "register" | "sink_copy" | "sink_borrow" | "push_copy_rem" | "register_rem" => {
                             produced = true
                         }
                         _ => {}
@@ -1281,6 +1348,18 @@ impl World for IovecWorld {
                     ("C10", "C10.panic_in_drop".to_string())
                 } else {
                     let p = panic_prop(kind);
+                    if p == "C04" && kind != "badfill" {
+                        // Registration and backfill are producer operations of the pipe:
+                        // a placeholder that cannot be registered or filled also breaks
+                        // "every backfilled placeholder holds its backfilled value".
+                        extra.push(Violation {
+                            prop: "C03",
+                            inv: "C03.panic_in_placeholder_op".to_string(),
+                            detail: format!("panic during {}: {}", kind, crate::driver::last_panic_location(&msg)),
+                            at_op: i,
+                            key: String::new(),
+                        });
+                    }
                     (p, format!("{}.panic", p))
                 };
                 Some(Violation {
@@ -1299,4 +1378,46 @@ impl World for IovecWorld {
             nontrivial: effective >= 8 && produced && consumed,
         }
     }
+}
+
+
+/// Hook-free workload for Miri (`-Zmiri-many-seeds`): several plain threads,
+/// each with its own unrelated iovecs and arenas, creating and releasing
+/// arena chunks at the same time.  The process-wide live-chunk counters must
+/// be back at their baseline once every thread has dropped everything.
+pub fn plain_chunk_threads_scenario(seed: u64) -> i32 {
+    let base = (ByteArena::num_live_chunks(), ByteArena::num_live_bytes());
+    let mut rng = Rng::new(seed ^ 0xc4a2);
+    let nthreads = rng.range(2, 3);
+    let mut handles = Vec::new();
+    for t in 0..nthreads {
+        let rounds = rng.range(1, 3);
+        let size = rng.range(1, 40) as usize;
+        handles.push(std::thread::spawn(move || {
+            for r in 0..rounds {
+                let mut iov: OwningIovec<'static> = OwningIovec::new();
+                iov.push_copy(&vec![t as u8 + 1; size + r as usize]);
+                let clone = iov.clone();
+                let taken = iov.take();
+                drop(clone);
+                iov.push_copy(&[9u8; 3]);
+                drop(iov);
+                assert_eq!(taken.flatten().unwrap_or_else(|v| v).len(), size + r as usize);
+            }
+        }));
+    }
+    let mut bad = 0;
+    for h in handles {
+        if h.join().is_err() {
+            println!("FOUND C10 C10.panic (plain chunk threads, seed {})", seed);
+            bad += 1;
+        }
+    }
+    let now = (ByteArena::num_live_chunks(), ByteArena::num_live_bytes());
+    if now != base {
+        println!("FOUND C10 C10.leak_after_drop (plain chunk threads, seed {}): counters {:?}, baseline {:?}", seed, now, base);
+        bad += 1;
+    }
+    println!("DONE plain-chunk-threads seed={}", seed);
+    if bad > 0 { 1 } else { 0 }
 }
